@@ -9,8 +9,9 @@ import PV.C19.Lemmas
                          `pyLayout` say what CPython's `%` does.
   Vocabulary (`Defs.lean`): `erase` reads a model split as a reference split (indices dropped, lone
   `.` = precision 0), `resolve` reads a quantity (`*` is left to the caller by the library and counts
-  as absent), `InDomain` / `BytesDomain` are the decidable domains outside of which the code is known
-  to deviate; each deviation is witnessed below.
+  as absent), `InDomain` is the decidable domain outside of which the splitter is known to deviate;
+  each remaining deviation is witnessed below.  (`format_bytes` was repaired in /repo commit 86620af;
+  its model is total and `bytes_eq` is unconditional.)
 -/
 namespace PV.C19
 open Spec
@@ -185,55 +186,22 @@ theorem char_eq (spec : Spec) (c : Nat) :
   unfold formatChar formatStringWithPrecision pyFormatChar pyFormatStr
   simp [fillString_eq, spaces]
 
-/-- `%s %b` on bytes, inside `BytesDomain` (width not below the kept data, no lone `.` on non-empty
-    data). -/
-theorem bytes_eq_partial (spec : Spec) (b : List Nat) (h : BytesDomain spec b) :
+/-- `%s %b` on bytes (after fix 86620af): precision — a lone `.` included — truncates, a width smaller
+    than the data pads nothing, `-` left-adjusts; for every spec and every byte string. -/
+theorem bytes_eq (spec : Spec) (b : List Nat) :
     formatBytes spec b =
-      some (pyFormatBytes spec.flags (resolve spec.width) (resolve (toPyPrec spec.prec)) b) := by
-  obtain ⟨hd, hw⟩ := h
-  unfold rustTrunc at hw
+      pyFormatBytes spec.flags (resolve spec.width) (resolve (toPyPrec spec.prec)) b := by
   unfold formatBytes pyFormatBytes pyFormatStr
   rcases hp : spec.prec with _ | ((p | _) | _) <;> rcases hwd : spec.width with _ | (w | _)
-  all_goals simp only [hp, hwd] at hw hd
-  all_goals (try (have hw' := hw _ rfl))
-  all_goals (try (simp only [List.length_take] at hw'))
-  all_goals (try (have hd' := hd trivial; subst hd'))
   all_goals simp [resolve, toPyPrec, take_min, spaces]
   all_goals (try (cases spec.flags.left <;> simp))
-  all_goals (try omega)
 
 example : specFromStr [37, 53, 115] = .ok spec5s := by decide
 example : specFromStr [37, 46, 115] = .ok specDotS := by decide
-example : BytesDomain spec5s [97, 98, 99] := by decide
-
-/-- Witness 3: `b"%5s" % b"abcdefgh"` — `width - len` underflows (`format_bytes` panics); Python
-    returns the data unpadded. -/
-theorem format_bytes_underflow :
-    formatBytes spec5s [97, 98, 99, 100, 101, 102, 103, 104] = none ∧
-    pyFormatBytes spec5s.flags (some 5) none [97, 98, 99, 100, 101, 102, 103, 104] =
-      [97, 98, 99, 100, 101, 102, 103, 104] := by decide
-
-/-- Witness 4: `b"%.s" % b"ab"` — a lone `.` does not truncate in `format_bytes`; Python gives `b""`. -/
-theorem format_bytes_dot_ignored :
-    formatBytes specDotS [97, 98] = some [97, 98] ∧
-    pyFormatBytes specDotS.flags none (some 0) [97, 98] = [] := by decide
-
-def bytes_eq_full : Prop := ∀ (spec : Spec) (b : List Nat),
-  formatBytes spec b =
-    some (pyFormatBytes spec.flags (resolve spec.width) (resolve (toPyPrec spec.prec)) b)
-
-theorem bytes_eq_fails : ¬ bytes_eq_full := by
-  intro h
-  have := h spec5s [97, 98, 99, 100, 101, 102, 103, 104]
-  revert this
-  decide
-
-/-- `format_bytes` panics exactly when the width is smaller than the data it kept. -/
-theorem format_bytes_panics_iff (spec : Spec) (b : List Nat) :
-    formatBytes spec b = none ↔ ∃ w, spec.width = some (.amount w) ∧ w < (rustTrunc spec b).length := by
-  unfold formatBytes rustTrunc
-  rcases hp : spec.prec with _ | ((p | _) | _) <;> rcases hw : spec.width with _ | (w | _) <;>
-    simp [take_min] <;> (try split) <;> simp_all
+-- the two inputs that used to fail: `b"%5s" % b"abcdefgh"` (panic) and `b"%.s" % b"ab"` (not truncated)
+example : formatBytes spec5s [97, 98, 99, 100, 101, 102, 103, 104] =
+    [97, 98, 99, 100, 101, 102, 103, 104] := by decide
+example : formatBytes specDotS [97, 98] = [] := by decide
 
 /-- Floats: whatever digit text `float.rs` produces for `|x|`, sign and padding are laid out as
     Python does (zero padding after the sign, `-` over `0`, no sign for NaN unless `+`/space). -/
@@ -290,23 +258,22 @@ theorem float_precision_panics :
     formatFloat { key := none, flags := {}, width := none, prec := some (.quantity (.amount 65536)),
                   ftype := .float .fix false, fchar := 102 } 0x3FF8000000000000 = none := by decide
 
-/-! ## no panics inside the domain -/
+/-! ## no panics inside the domain
+   (`formatString`, `formatChar` and, since 86620af, `formatBytes` are total functions of the model: the
+   code has no panic path there at all) -/
 
 theorem no_panic_partial :
     (∀ t, InDomain t → parseTemplate t ≠ .panic) ∧
     (∀ spec t n, spec.ftype = .number t → (formatNumber spec n).isSome = true) ∧
-    (∀ spec b, BytesDomain spec b → (formatBytes spec b).isSome = true) ∧
     (∀ spec bits k up, spec.ftype = .float k up → floatPrecision spec ≤ 65530 →
       (formatFloat spec bits).isSome = true) := by
-  refine ⟨?_, ?_, ?_, ?_⟩
+  refine ⟨?_, ?_, ?_⟩
   · intro t h hp
     have := split_eq_bytes t h
     rw [hp] at this
     simp [erase] at this
   · intro spec t n ht
     rw [number_eq spec t n ht]; rfl
-  · intro spec b h
-    rw [bytes_eq_partial spec b h]; rfl
   · intro spec bits k up ht hp
     rw [float_layout_eq]
     simp only [Option.isSome_map, floatBody, ht]
